@@ -22,9 +22,12 @@ package control_loop
 //@ func (*PidControlLoop).Cycle
 //@   props C01 C04
 //@   requires l.pidLoop != nil
+// every control cycle advances the PID loop (its clock, integral and last error) exactly once - otherwise the
+// next step would integrate over the whole time the loop was skipped and the request would depend on history
+//@   ensures[C04.pid.advance] pidSteps == old(pidSteps) + 1
 //@   ghostret lastCycleOut := result
 //@   ensures lastCycleOut == result
-//@   modifies l.pidLoop.integral, l.pidLoop.error, l.pidLoop.lastTime, lastPidOut, lastCycleOut
+//@   modifies l.pidLoop.integral, l.pidLoop.error, l.pidLoop.lastTime, lastPidOut, pidSteps, lastCycleOut
 
 //@ func NewDirectControlLoop
 //@   ensures result != nil && fresh(result)
